@@ -11,3 +11,8 @@ import "time"
 // verifTimerCreated is a hook for the runtime monitors kept outside this
 // repository; it does nothing unless the package is built with the "verif" tag.
 func verifTimerCreated(owner any, t *time.Timer) {}
+
+// verifPoint marks a place between two steps of the SDK at which the runtime
+// monitors may want other goroutines to run first; it does nothing unless the
+// package is built with the "verif" tag.
+func verifPoint(name string) {}
